@@ -139,6 +139,15 @@ impl SharedUdpPort {
             self.peers.lock().get(&peer_addr).cloned()
         };
 
+        #[cfg(rustrtc_verif)]
+        if crate::verif::enabled() && ufrag.is_none() {
+            crate::verif::emit(
+                "ice",
+                "mux",
+                "mux_drop",
+                serde_json::json!({"src": peer_addr.to_string(), "h": crate::verif::hash32(packet), "len": packet.len()}),
+            );
+        }
         let Some(ufrag) = ufrag else {
             trace!(
                 "shared UDP: no session for peer {} (len={}, first_byte={})",
@@ -154,6 +163,15 @@ impl SharedUdpPort {
             sessions.get(&ufrag).map(|s| s.tx.clone())
         };
 
+        #[cfg(rustrtc_verif)]
+        if crate::verif::enabled() && tx.is_none() {
+            crate::verif::emit(
+                "ice",
+                "mux",
+                "mux_drop",
+                serde_json::json!({"src": peer_addr.to_string(), "h": crate::verif::hash32(packet), "len": packet.len(), "ufrag": ufrag}),
+            );
+        }
         if let Some(tx) = tx {
             match tx.try_send((packet.to_vec(), peer_addr)) {
                 Ok(()) => {}
